@@ -21,6 +21,78 @@ let words s = List.filter (fun w -> w <> "") (split_on ' ' s)
 let ios = int_of_string
 let bool_of s = (s = "1" || s = "true")
 
+
+(* ---- weak-memory machine (Model/WMem.v) ---- *)
+let wm_loc = function "Seq" -> LSeq | "Sec" -> LSec | "Nan" -> LNan | t -> failwith ("loc " ^ t)
+let wm_ord = function "Rlx" -> Rlx | "Acq" -> Acq | "Rel" -> Rel | t -> failwith ("ord " ^ t)
+let wm_reg = function "R0" -> R0 | "R1" -> R1 | "R2" -> R2 | "R3" -> R3 | t -> failwith ("reg " ^ t)
+let wm_expr t =
+  if t = "A" then EArgA else if t = "B" then EArgB else
+  match split_on '+' t with
+  | [r; k] -> EReg (wm_reg r, z_of_int (ios k))
+  | _ -> failwith ("expr " ^ t)
+let wm_instr tok =
+  match split_on ',' tok with
+  | ["Ld"; x; o; r] -> Ld (wm_loc x, wm_ord o, wm_reg r)
+  | ["St"; x; o; e] -> St (wm_loc x, wm_ord o, wm_expr e)
+  | ["Fn"; o] -> Fn (wm_ord o)
+  | ["Odd"; r] -> FailIfOdd (wm_reg r)
+  | ["Ret"; a; b; c; d] -> RetIfEq (wm_reg a, wm_reg b, wm_reg c, wm_reg d)
+  | _ -> failwith ("instr " ^ tok)
+(* "W <instrs> R <instrs> I a b V a b a b .. N n <rest>" *)
+let wm_parse ws =
+  let rec until stop acc = function
+    | x :: r when List.mem x stop -> (List.rev acc, x :: r)
+    | x :: r -> until stop (x :: acc) r
+    | [] -> (List.rev acc, []) in
+  match ws with
+  | "W" :: r ->
+      let (wp, r) = until ["R"] [] r in
+      let (rp, r) = until ["I"] [] (List.tl r) in
+      (match r with
+       | "I" :: a :: b :: "V" :: r ->
+           let (vs, r) = until ["N"] [] r in
+           let rec pairs = function x :: y :: t -> (z_of_int (ios x), z_of_int (ios y)) :: pairs t | _ -> [] in
+           (match r with
+            | "N" :: n :: rest ->
+                (wm_init (List.map wm_instr wp) (List.map wm_instr rp) (z_of_int (ios a), z_of_int (ios b)) (pairs vs) (nat_of_int (ios n)), rest)
+            | _ -> failwith "wm: N")
+       | _ -> failwith "wm: I")
+  | _ -> failwith "wm: W"
+let wm_out_str outs =
+  String.concat " ; " (List.map (fun l -> String.concat " " (List.map (fun (a, b) -> Printf.sprintf "%d,%d" (int_of_z a) (int_of_z b)) l)) outs)
+(* bounded depth-first search for a run in which a reader returns a value the cell never held,
+   or an older value after a newer one (a search for a failing input: never a proof) *)
+let wm_search s0 depth maxc =
+  let seen = Hashtbl.create 100003 in
+  let states = ref 0 in
+  let found = ref None in
+  let nthreads = List.length s0.threads in
+  let bad s =
+    let hist = s.whist in
+    let idx v = let rec go i = function [] -> -1 | x :: r -> if x = v then i else go (i + 1) r in go 0 hist in
+    List.exists (fun l ->
+      let is = List.map idx l in
+      List.mem (-1) is ||
+      (let rec dec = function a :: (b :: _ as r) -> a > b || dec r | _ -> false in dec is)) (wm_outputs s) in
+  let rec go s d path =
+    if !found <> None then () else
+    if bad s then found := Some (List.rev path, s) else
+    if d = 0 then () else
+    let key = (s.wmem, s.threads, d) in
+    if Hashtbl.mem seen key then () else begin
+      Hashtbl.add seen key (); incr states;
+      for t = 0 to nthreads - 1 do
+        for c = 0 to maxc do
+          match wm_step s (nat_of_int t) (nat_of_int c) with
+          | Some s' -> go s' (d - 1) ((t, c) :: path)
+          | None -> ()
+        done
+      done
+    end in
+  go s0 depth [];
+  (!found, !states)
+
 (* ---- pq ---- *)
 let pq_op_of tok =
   match split_on ',' tok with
@@ -223,6 +295,26 @@ let run_case line =
       (match x_ts_check (k = "f") (List.map top_of ops) with
        | None -> "OK"
        | Some i -> "BAD-AT " ^ string_of_int (int_of_nat i))
+  | "wm" :: ws ->
+      let (s0, rest) = wm_parse ws in
+      (match rest with
+       | "S" :: sched ->
+           let sch = List.map (fun tok -> match split_on ',' tok with [t; c] -> (nat_of_int (ios t), nat_of_int (ios c)) | _ -> failwith "wm sched") sched in
+           let s = wm_run s0 sch in
+           wm_out_str (wm_outputs s) ^ " | " ^ String.concat " " (List.map (fun (a, b) -> Printf.sprintf "%d,%d" (int_of_z a) (int_of_z b)) s.whist)
+       | _ -> failwith "wm: S")
+  | "wmsearch" :: ws ->
+      let (s0, rest) = wm_parse ws in
+      (match rest with
+       | ["D"; d; "C"; c] ->
+           (match wm_search s0 (ios d) (ios c) with
+            | (Some (path, s), n) ->
+                Printf.sprintf "FOUND states=%d | %s | %s | %s" n
+                  (String.concat " " (List.map (fun (t, c) -> Printf.sprintf "%d,%d" t c) path))
+                  (wm_out_str (wm_outputs s))
+                  (String.concat " " (List.map (fun (a, b) -> Printf.sprintf "%d,%d" (int_of_z a) (int_of_z b)) s.whist))
+            | (None, n) -> Printf.sprintf "NONE states=%d" n)
+       | _ -> failwith "wmsearch: D d C c")
   | "crw" :: ops ->
       let op_of tok = match split_on ',' tok with
         | ["c"; i] -> CClone (nat_of_int (ios i))
